@@ -4,7 +4,7 @@ import itertools
 from mc import pool, words, parser_engine as E
 from . import parser_common as PC
 
-CHARS = ["a", '"', "\\", ",", "[", "]", " ", "\n", "é", "#", ";"]
+CHARS = ["a", '"', "\\", ",", "[", "]", " ", "\n", "é", "#", ";", "\r", "\u2028"]
 REQ = 'require ["fileinto","reject","vacation","variables","imap4flags","envelope"];\n'
 SLOTS = [
     ("single", 'redirect %s;'),
@@ -16,7 +16,8 @@ SLOTS = [
     ("list-tag-param-only", 'keep :flags [%s];'),
     ("nested", 'if true { if true { fileinto %s; } }'),
 ]
-ML_LINES = ["abc", "..x", "", '"q"', "[a]", "é", ". ", "text:"]
+# the last four: characters that str.splitlines() / \s treat as line ends or blanks but Sieve does not, directly before a "."
+ML_LINES = ["abc", "..x", "", '"q"', "[a]", "é", ". ", "text:", "p\x0c.", "q\u2028.", "r\r.", "\x85"]
 ML_SLOTS = [
     ("top-last", "reject %s\n;"),
     ("top-nonlast", 'set %s\n"b";'),
@@ -44,7 +45,8 @@ def ml_cases(maxlines):
 
 
 def e3_task(t):
-    kind, slot_i, maxn = t
+    kind, slot_i, maxn = t[:3]
+    c03 = len(t) > 3 and t[3] == "c03"  # the same value products under C03's tree oracle (token conservation, generic tree)
     viols = []
     n = 0
     acc = 0
@@ -60,6 +62,10 @@ def e3_task(t):
         text = (REQ + tmpl % spelled).encode("utf-8")
         n += 1
         case = E.execute((), text=text, want_config=False)
+        if c03:
+            acc += case.obs.verdict == "ACC"
+            viols.extend(E.oracle_c03(case))
+            continue
         if case.obs.verdict == "ACC":
             acc += 1
             distinct.add(spelled)
